@@ -114,4 +114,11 @@ P("C07", "other", "abstract interpretation with pending-link ghosts + handle-val
   "itself, freed once after the table was drained; iterator cursors are dereferenced only behind the null test. Not decided: the "
   "global list shape (mirror-image traversals of exactly len() entries) and aliasing-model UB.",
   E3TB, "DESIGN.md 3/C07")
+P("C15", "other", "def-use term analysis of the retain loop (one unrolled iteration per path) + abstract interpretation",
+  "Clauses decided on the MIR of retain (all paths through one loop iteration, as provenance terms): the cursor starts at the seal's LRU "
+  "link and the loop stops at the seal; exactly one predicate call per visited entry, on that entry's own key and value; a removal "
+  "happens iff the predicate returned false, exactly once, by that entry's key (so the ordinary removal path unlinks, subtracts the "
+  "size and drops the pair); survivors are never relinked; the next cursor is the visited entry's LRU-side link. E3: current_size/len "
+  "stay exact and the bound holds at the predicate call and at exit.",
+  E3TB + " Not decided: exactly-once / order for every history needs the list-shape invariant (C07).", "DESIGN.md 3/C15")
 NOT_CLAIMED = {}
